@@ -189,7 +189,9 @@ def compile : Ast → Needed → Except CErr (Compiled × Needed)
       let needed := if needed.all (fun e => (r.defs.get e.1).isNone) then
           (match r.query.select with | u :: _ => needed.incr u | [] => needed) else needed
       -- the grouping state survives the subquery: its columns are selected as well (repair of D66)
-      let subqCols := needed.map (·.1) ++ (r.query.partitionBy.map (·.1)).filter (fun u => !needed.any (·.1 == u))
+      let subqCols0 := needed.map (·.1) ++ (r.query.partitionBy.map (·.1)).filter (fun u => !needed.any (·.1 == u))
+      -- visible columns first: they keep their names, a clash is resolved on the hidden column (repair of D67)
+      let subqCols := subqCols0.filter (fun u => r.query.select.contains u) ++ subqCols0.filter (fun u => !r.query.select.contains u)
       let names := subqueryNames subqCols r.defs
       let innerQ := { r.query with select := names.map (·.1) }
       let innerDefs := names.foldl (fun d e => match d.get e.1 with
